@@ -40,4 +40,19 @@ CONFIG = {
         "assumptions": ["byte strings shorter than 2^31", "HPKE KEM table of go-hpke as read from its source (ids 0x10,0x12,0x20,0x21,0xFFFE,0xFFFF)"],
         "contradicts": "PatVerif.Props.C04",
     },
+    "C20": {
+        "rule": "Every name length 0..1100 (quick, thinned above 200) / 0..20000 (thorough) with letter, 0xFF, random and zero-rich "
+                "contents through pad/unpad; random strings with trailing/leading/inner zeros through unpad; end to end with a real "
+                "client and issuer: lengths around every block boundary, registered name vs names differing in the last byte, "
+                "one byte longer/shorter, with a padding-like suffix, and the empty registration set.",
+        "level_text": "pad/unpad laws (padded length = 32·blocks, unpad∘pad = id for names not ending in 0, unpad never returns a name ending "
+                      "in 0, injectivity), and the wire-size formula 488 + 32·blocks derived from the type-3 request codec, are Lean theorems "
+                      "for all names. Tied to the Go code through hooks on padOriginName/unpadOriginName and through real "
+                      "CreateTokenRequest → Marshal → Evaluate runs whose size and served/refused verdict the model predicts.",
+        "level_note": "Trusted: Lean kernel, standard axioms, harness. HPKE ciphertext expansion (32-byte enc, 16-byte tag) is modelled as constants "
+                      "and validated by the end-to-end stream; names longer than ~65000 bytes make the client's own builder panic (not a peer input).",
+        "trusted_base": COMMON_TB + ["HPKE X25519/AES-128-GCM expansion constants 32+16"],
+        "assumptions": ["origin names shorter than 65279 bytes"],
+        "contradicts": "PatVerif.Props.C20",
+    },
 }
